@@ -168,6 +168,22 @@ func fuScenarios() []fuScenario {
 	}
 	return []fuScenario{
 		{"Element.SetBytes || Element.SetBytes (different encodings)", "C06 C09 C11 C12 C17", false, [2]func(*ipa.IPAConfig, int64) string{dec(0), dec(1)}},
+		{"first ScalarMul of the generator || first ScalarMul of the generator (other scalar), then Add", "C07 C08 C12", false, [2]func(*ipa.IPAConfig, int64) string{
+			func(c *ipa.IPAConfig, seed int64) string {
+				k := frFromBig(bi(1234567))
+				var e, f banderwagon.Element
+				e.ScalarMul(&banderwagon.Generator, &k)
+				f.Add(&e, &banderwagon.Generator)
+				return elString(&e) + elString(&f)
+			},
+			func(c *ipa.IPAConfig, seed int64) string {
+				k := frFromBig(new(big.Int).Sub(bigR, bi(3)))
+				var e, f banderwagon.Element
+				e.ScalarMul(&banderwagon.Generator, &k)
+				f.Double(&e)
+				return elString(&e) + elString(&f)
+			},
+		}},
 		{"ipa.GenerateRandomPoints(2) || ipa.GenerateRandomPoints(3)", "C05 C12 C17", false, [2]func(*ipa.IPAConfig, int64) string{
 			func(c *ipa.IPAConfig, seed int64) string { return elsDigest(ipa.GenerateRandomPoints(2)) },
 			func(c *ipa.IPAConfig, seed int64) string { return elsDigest(ipa.GenerateRandomPoints(3)) },
